@@ -140,6 +140,15 @@ def variants():
     V["utils_square_dekker"] = dict(nargs=1, clause="square", opts={},
                                     trace=lambda fmt: _trace_expr_fn(lambda ctx, x: utils.square_dekker(x, C=ctx.constant(ucst(fmt), x)), 1, fmt),
                                     eager=lambda fmt, a: utils.square_dekker(a[0], C=ucst(fmt)))
+    # the DEFAULT-argument paths of the utils copies (`C=None`: the constant is computed inline from `s`) only exist for NumPy scalars, so
+    # they cannot be traced; eager-only variants, decided by search (intermediate finiteness taken from the traced explicit-C program).
+    # Seeded change C10_3 (`2**s - 1` in that path) was missed until these were added.
+    V["utils_split_veltkamp_default"] = dict(nargs=1, clause="split", opts={}, trace=None, scalar=True, finite_from="utils_split_veltkamp",
+                                             eager=lambda fmt, a: utils.split_veltkamp(a[0]))
+    V["utils_multiply_dekker_default"] = dict(nargs=2, clause="dekker", opts={}, trace=None, scalar=True, finite_from="utils_multiply_dekker",
+                                              eager=lambda fmt, a: utils.multiply_dekker(a[0], a[1]))
+    V["utils_square_dekker_default"] = dict(nargs=1, clause="square", opts={}, trace=None, scalar=True, finite_from="utils_square_dekker",
+                                            eager=lambda fmt, a: utils.square_dekker(a[0]))
     return V
 
 
@@ -167,13 +176,24 @@ def gen_inputs(ctx, fmt, nargs, n, clause):
             ef2 = max(0, min((1 << ew) - 2, ef + rng.randrange(-p - 1, p + 2)))
             b = fpx.pattern(fmt, rng.getrandbits(1), ef2, fpx.directed_patterns(rng, fmt, 1)[0] & ((1 << (p - 1)) - 1))
             tuples[i] = (a, b)
-    if clause in ("dekker", "square", "split") and fmt == "float32":
-        # the sliver where a 2^s multiplier leaves a 13-bit high half
+    if clause in ("dekker", "square", "split"):
+        # slivers of the significand where a wrong splitting constant or a re-associated splitter shows: just above a power of two
+        # (fraction field around 2^(fb-s-1): a 2^s or 2^s - 1 multiplier leaves a (p-s+1)-bit high half there) and just below the next
+        # one (fraction field within 2^(fb-s+2) of all-ones: (x + g) - g crosses the binade); all three formats, random last bits
+        fb, sh = p - 1, (p + 1) // 2
+        bias = (1 << (ew - 1)) - 1
         for i in range(1, n, 5):
             t = []
             for _ in range(nargs):
-                ef = rng.randrange(60, 190)
-                t.append(fpx.pattern(fmt, rng.getrandbits(1), ef, rng.randrange(1025, 2048)))
+                ef = max(1, min((1 << ew) - 2, bias + rng.randrange(-bias // 2, bias // 2)))
+                if (i // 5) % 2 == 0:
+                    lo, hi = 1 << max(0, fb - sh - 2), 1 << min(fb, fb - sh + 1)
+                    fr = rng.randrange(lo, hi)
+                else:
+                    fr = (1 << fb) - 1 - rng.randrange(0, 1 << min(fb, fb - sh + 2))
+                if fmt == "float32" and rng.random() < 0.3:
+                    fr = rng.randrange(1025, 2048)  # the historical sliver of the 2^s multiplier (fixed in 9c597dd)
+                t.append(fpx.pattern(fmt, rng.getrandbits(1), ef, fr | (rng.getrandbits(1) if rng.random() < 0.5 else 0)))
             tuples[i] = tuple(t)
     return tuples
 
